@@ -347,3 +347,37 @@ def i7(ctx):
 
 
 RULES.append(i7)
+
+
+@rule("I8", doc="a freshly allocated class: the invocation handed back renames the class's slots by the inverse of the renaming that was applied to the stored node")
+def i8(ctx):
+    crate = ctx.lib()
+    allocs = [b.id for b in crate.fns() if any(s["k"] == "assign" and s["rv"]["k"] == "agg" and s["rv"].get("adt") == C.ECLASS for bi, si, s in b.statements())]
+    C.need("class allocator (constructs an EClass)", allocs)
+    n = 0
+    for b in crate.fns():
+        for c in C.calls_to(crate, b, set(allocs)):
+            if c.body is not b or len(c.args) < 3:
+                continue
+            node = strip_role(b.role_of_operand(c.args[2]))
+            if not (isinstance(node, tuple) and node[0] == "call" and node[1].startswith("apply_slotmap") and len(node[3]) == 2):
+                continue
+            Y = strip_role(node[3][1])
+            # invocations of the new class built in this function
+            for x in b.calls:
+                if x.callee and x.callee.name in ("mk_syn_applied_id", "mk_sem_applied_id") and len(x.args) == 3 and not b.blocks[x.bb]["cleanup"]:
+                    idr = strip_role(b.role_of_operand(x.args[1]))
+                    if not (isinstance(idr, tuple) and idr[0] == "call" and idr[4] == c.bb):
+                        continue
+                    X = strip_role(b.role_of_operand(x.args[2]))
+                    n += 1
+                    inv = lambda r: isinstance(r, tuple) and r[0] == "call" and r[1] == "inverse" and r[3]
+                    ok = (inv(Y) and strip_role(Y[3][0]) == X) or (inv(X) and strip_role(X[3][0]) == Y)
+                    ctx.check(ok, "invocation-inverts-node-renaming:" + C.fkey(b),
+                              "%s: the stored node is renamed by %s, the invocation handed back by its inverse" % (C.short(b.id), role_str(Y)[:60]),
+                              "%s renames the node it stores in the new class with %s and hands back an invocation with map %s: these must be inverse to each other (old -> fresh for the node, fresh -> old for the invocation). Otherwise the class's slots are unrelated to the slots of the term the caller added" % (C.short(b.id), role_str(Y)[:70], role_str(X)[:70]),
+                              where_of(b, x.bb))
+    ctx.floor("allocation sites with a renamed node and a returned invocation", n, 1)
+
+
+RULES.append(i8)
